@@ -342,6 +342,9 @@ func HandleSetFileInfo(cc *hotline.ClientConn, t *hotline.Transaction) (res []ho
 			// The new name is a single path element: it must not take the folder out of the folder it is in (that
 			// would be a move, which has its own request and privilege).
 			fullNewFilePath = filepath.Join(filepath.Dir(fullFilePath), filepath.Base(fullNewFilePath))
+			if _, err := os.Lstat(fullNewFilePath); err == nil && fullNewFilePath != fullFilePath {
+				return cc.NewErrReply(t, "Cannot rename folder "+string(fileName)+" because an item with that name already exists.")
+			}
 			err = os.Rename(fullFilePath, fullNewFilePath)
 			if os.IsNotExist(err) {
 				return cc.NewErrReply(t, "Cannot rename folder "+string(fileName)+" because it does not exist or cannot be found.")
@@ -363,6 +366,9 @@ func HandleSetFileInfo(cc *hotline.ClientConn, t *hotline.Transaction) (res []ho
 			hlFile.Name = filepath.Base(filepath.Join("/", hlFile.Name))
 
 			err = hlFile.Move(fileDir)
+			if errors.Is(err, os.ErrExist) {
+				return cc.NewErrReply(t, "Cannot rename file "+string(fileName)+" because an item with that name already exists.")
+			}
 			if os.IsNotExist(err) {
 				return cc.NewErrReply(t, "Cannot rename file "+string(fileName)+" because it does not exist or cannot be found.")
 			}
@@ -463,6 +469,9 @@ func HandleMoveFile(cc *hotline.ClientConn, t *hotline.Transaction) (res []hotli
 		}
 	}
 	if err := hlFile.Move(fileNewPath); err != nil {
+		if errors.Is(err, os.ErrExist) {
+			return cc.NewErrReply(t, "Cannot move "+fileName+" because an item with that name already exists there.")
+		}
 		return res
 	}
 	// TODO: handle other possible errors; e.g. file delete fails due to permission issue
